@@ -6,6 +6,7 @@ import hashlib
 import os
 from dataclasses import dataclass, field
 from typing import Dict, List, Optional
+from .inline import inline_new_helpers
 from .normalize import canonical_calls, normalize
 
 
@@ -125,7 +126,12 @@ class Repo:
                 mi.is_pkg = fn == "__init__.py"
                 self.modules[modname] = mi
         self.digest = h.hexdigest()[:16]
-        canonical_calls([mi.tree for mi in self.modules.values()])
+        trees = [mi.tree for mi in self.modules.values()]
+        if inline_new_helpers(trees):
+            for mi in self.modules.values():
+                mi.tree = normalize(mi.tree)
+            trees = [mi.tree for mi in self.modules.values()]
+        canonical_calls(trees)
         for mi in self.modules.values():
             self._index(mi)
 
